@@ -94,6 +94,7 @@ class Build:
     def __init__(self, scratch):
         self.scratch = scratch
         self.lock = threading.Lock()
+        self.keylocks = {}
         self.cache = {}
         self.variants = {}
         self._mk_variants()
@@ -153,10 +154,18 @@ class Build:
                     fl.append(tok)
         return fl
 
+    def _keylock(self, key):
+        with self.lock:
+            return self.keylocks.setdefault(key, threading.Lock())
+
     def goto_unit(self, u, variant):
         if isinstance(u, str):
             u = Unit(u)
         key = ("gb", u.key(), variant)
+        with self._keylock(key):
+            return self._goto_unit(u, variant, key)
+
+    def _goto_unit(self, u, variant, key):
         with self.lock:
             if key in self.cache:
                 return self.cache[key]
@@ -169,7 +178,7 @@ class Build:
                 ["-D" + d for d in u.defines] + self.unit_flags(u) + list(u.extra_flags)
         if u.sed:
             pre = out + ".i"
-            r = self._run(["gcc", "-E", "-P"] + flags + [src], "preprocess " + u.path)
+            r = self._run(["gcc", "-E"] + flags + [src], "preprocess " + u.path)
             txt = r.stdout
             for pat, rep in u.sed:
                 txt, n = re.subn(pat, rep, txt)
@@ -186,6 +195,10 @@ class Build:
 
     def goto_aux(self, path, variant, defines):
         key = ("aux", path, variant, tuple(defines))
+        with self._keylock(key):
+            return self._goto_aux(path, variant, defines, key)
+
+    def _goto_aux(self, path, variant, defines, key):
         with self.lock:
             if key in self.cache:
                 return self.cache[key]
@@ -275,15 +288,28 @@ def parse_cbmc_json(txt):
 
 
 # CBMC failure classes that do not correspond to native behaviour (DESIGN section 7)
-def is_artefact(r):
-    d = r.get("description", "")
-    # difference / comparison of two pointers into the same array reported as "overflow"
-    if d.startswith("arithmetic overflow on signed") and re.search(r"const char \*|char \*", d) and " - " in d:
-        return True
-    return False
+def is_artefact(r, ptr_overflow_props=()):
+    # CBMC reports the (defined) negative difference of two pointers into the same array as
+    # overflow("-", T *, p, q); such properties are identified by their typed expression
+    # (cbmc --show-properties) and dropped; integer overflow properties are kept.
+    return r.get("property") in ptr_overflow_props
 
 
-def classify(q, parsed):
+def pointer_typed_overflow_props(q, gb):
+    cmd = ["cbmc", gb, "--function", q.func] + CBMC_BASE_FLAGS + list(q.flags) + ["--show-properties", "--json-ui"]
+    rc, out, err, to, wall = run_proc(cmd, 120, 4)
+    names = set()
+    try:
+        for x in json.loads(out):
+            for p in x.get("properties", []):
+                if p.get("class") == "overflow" and re.match(r'!overflow\("-", [^,]*\*,', p.get("expression", "")):
+                    names.add(p["name"])
+    except Exception:
+        pass
+    return names
+
+
+def classify(q, parsed, ptr_props=()):
     """-> (status, failed[], witness_ok, n_props, n_ok, functions)"""
     failed, unknown, witness_ok, n_ok, funcs = [], [], False, 0, set()
     unwind_fail = []
@@ -301,7 +327,7 @@ def classify(q, parsed):
         if st == "SUCCESS":
             n_ok += 1
         elif st == "FAILURE":
-            if is_artefact(r):
+            if is_artefact(r, ptr_props):
                 n_ok += 1
                 continue
             ent = (r["property"], desc, sl.get("file", ""), sl.get("line", ""), sl.get("function", ""))
@@ -348,6 +374,8 @@ def run_query(build, q):
     res.solver_s = parsed["solver_s"]
     res.sat_vars, res.sat_clauses = parsed["nvars"], parsed["nclauses"]
     st, failed, wok, n, n_ok, funcs, unknown, unwind_fail = classify(q, parsed)
+    if any("arithmetic overflow on signed -" in f[1] for f in failed):
+        st, failed, wok, n, n_ok, funcs, unknown, unwind_fail = classify(q, parsed, pointer_typed_overflow_props(q, gb))
     res.n_props, res.n_ok, res.witness_ok, res.functions = n, n_ok, wok, funcs
     res.failed = failed
     if q.expect == "finding":
@@ -490,7 +518,7 @@ def native_build(build, q, outdir):
         if u and isinstance(u, Unit):
             fl += build.unit_flags(u) + list(u.extra_flags)
             if u.sed:
-                r = subprocess.run(["gcc", "-E", "-P"] + fl + [src], capture_output=True, text=True)
+                r = subprocess.run(["gcc", "-E"] + fl + [src], capture_output=True, text=True)
                 if r.returncode != 0:
                     raise FrameworkError("native preprocess failed: " + r.stderr[-2000:])
                 txt = r.stdout
